@@ -3,7 +3,18 @@ import wlcheck
 
 PID = 'C01'
 TAGS = set('get,snapget,step,inv,mem,recover'.split(','))
-THEOREMS = []
+THEOREMS = [
+    'Lcdb.C01.get_eq_view',
+    'Lcdb.C01.getEntry_eq_newestVisible',
+    'Lcdb.C01.runGet_eq_newest',
+    'Lcdb.C01.levelGet_eq_lookup_concat',
+    'Lcdb.C01.l0_search_eq',
+    'Lcdb.C01.firstHit_eq_newest',
+    'Lcdb.C01.get_latest_write',
+    'Lcdb.C01.get_absent',
+    'Lcdb.C01.invCheck_sound',
+    'Lcdb.C01.get_eq_view_examples',
+]
 IMPORTS = ['LcdbModel.Props.C01']
 TARGETS = ['LcdbModel.Props.C01']
 
